@@ -230,6 +230,7 @@ CORPUS_D = [
     'D 255 - - sprintf:' + '61' * 260,
     'D 10 - - sprintf:' + '61' * 12,
     'D 10 616263 - it:3:dec:0 it:3:sub:2 rit:3:dec:0 rit:3:sub:1',
+    'D 10 616263 - Frfind_ch:00:n',
 ]
 
 
